@@ -351,13 +351,47 @@ func eqFacts(a, b *Term, pol bool) []Fact {
 	if a.Op == "const" && (a.Name == "true" || a.Name == "false") {
 		return decompose(b, pol == (a.Name == "true"))
 	}
+	// (X - c) == k  <=>  X == k+c
+	if x, k, ok := unshift(a, b); ok {
+		return []Fact{{atomEQ(x, tInt(k)), pol}}
+	}
+	if x, k, ok := unshift(b, a); ok {
+		return []Fact{{atomEQ(x, tInt(k)), pol}}
+	}
 	// integer equality with a constant also refines the interval
 	return []Fact{{atomEQ(a, b), pol}}
+}
+
+// unshift: a is X+c or X-c with an integer constant c and b an integer
+// constant k: returns X and the constant X is compared with.
+func unshift(a, b *Term) (*Term, int64, bool) {
+	k, ok := b.IntConst()
+	if !ok || a.Op != "bin" || len(a.Args) != 2 || (a.Name != "-" && a.Name != "+") {
+		return nil, 0, false
+	}
+	c, ok := a.Args[1].IntConst()
+	if !ok {
+		return nil, 0, false
+	}
+	if _, isC := a.Args[0].IntConst(); isC {
+		return nil, 0, false
+	}
+	if a.Name == "-" {
+		return a.Args[0], k + c, true
+	}
+	return a.Args[0], k - c, true
 }
 
 // ltFacts: a < b with polarity pol. Comparisons against integer constants are
 // normalised to LT(x, C) so that x < 43 and x <= 42 are the same fact.
 func ltFacts(a, b *Term, pol bool) []Fact {
+	// (X - c) < k  <=>  X < k+c ;  k < (X - c)  <=>  k+c < X
+	if x, k, ok := unshift(a, b); ok {
+		return ltFacts(x, tInt(k), pol)
+	}
+	if x, k, ok := unshift(b, a); ok {
+		return ltFacts(tInt(k), x, pol)
+	}
 	if c, ok := a.IntConst(); ok {
 		if _, ok2 := b.IntConst(); !ok2 {
 			// c < b  ==  !(b < c+1)
